@@ -89,6 +89,31 @@ mod interpolate {
         a == b
     }
 
+    /// the inputs of the listed known finding: a closed braced reference `${name}` whose name is empty or
+    /// contains a byte outside [0-9A-Za-z_] (the library takes any bytes, ripgrep's port does not)
+    #[cfg(any(kani, test))]
+    pub(crate) fn known_braced_class(rep: &[u8]) -> bool {
+        if rep.len() < 3 || rep[0] != b'$' || rep[1] != b'{' {
+            return false;
+        }
+        let mut i = 2;
+        while i < rep.len() && rep[i] != b'}' {
+            i += 1;
+        }
+        if i >= rep.len() {
+            return false;
+        }
+        let mut all_word = i > 2;
+        let mut k = 2;
+        while k < i {
+            if !(rep[k].is_ascii_alphanumeric() || rep[k] == b'_') {
+                all_word = false;
+            }
+            k += 1;
+        }
+        !all_word
+    }
+
     #[cfg(any(kani, test))]
     pub(crate) fn agree(rep: &[u8]) -> bool {
         match (find_cap_ref(rep), spec_cap_ref(rep)) {
@@ -128,23 +153,37 @@ mod interpolate {
             assert!(expand_agrees(&t[..n]));
         }
 
-        /// bounded: every template of up to 4 bytes
+        /// bounded: every template of up to 4 bytes OUTSIDE the class of the listed known finding
         #[kani::proof]
         #[kani::unwind(7)]
         fn find_cap_ref_matches_library_grammar_len4() {
             let t: [u8; 4] = kani::any();
             let n: usize = kani::any();
             kani::assume(n <= 4);
+            kani::assume(!known_braced_class(&t[..n]));
             assert!(agree(&t[..n]));
         }
 
-        /// bounded: every template of up to 6 bytes
+        /// bounded: every template of up to 6 bytes OUTSIDE the class of the listed known finding
         #[kani::proof]
         #[kani::unwind(9)]
         fn find_cap_ref_matches_library_grammar_len6() {
             let t: [u8; 6] = kani::any();
             let n: usize = kani::any();
             kani::assume(n <= 6);
+            kani::assume(!known_braced_class(&t[..n]));
+            assert!(agree(&t[..n]));
+        }
+
+        /// the class of the listed known finding only (`${name}` whose name is empty or has a byte outside
+        /// [0-9A-Za-z_]): FAILS on the current tree, reported as KNOWN-FINDING
+        #[kani::proof]
+        #[kani::unwind(7)]
+        fn find_cap_ref_braced_name_any_bytes_len4() {
+            let t: [u8; 4] = kani::any();
+            let n: usize = kani::any();
+            kani::assume(n <= 4);
+            kani::assume(known_braced_class(&t[..n]));
             assert!(agree(&t[..n]));
         }
     }
@@ -166,6 +205,12 @@ mod interpolate {
         #[test]
         #[ignore]
         fn exhaustive_native() {
+            if let Ok(h) = std::env::var("VERIF_REPLAY_HEX") {
+                let b: Vec<u8> = (0..h.len() / 2).map(|i| u8::from_str_radix(&h[2 * i..2 * i + 2], 16).unwrap()).collect();
+                println!("FAILING CASE? interpolate template={:?}", String::from_utf8_lossy(&b));
+                assert!(expand_agrees(&b), "interpolate disagrees with the library expansion");
+                return;
+            }
             let alpha: [u8; 8] = [b'$', b'}', b'1', b'n', b'a', b'_', 0xFF, b' '];
             let mut t = [0u8; 5];
             for n in 0..=5usize {
